@@ -11,6 +11,6 @@ trap 'git -C /repo worktree remove --force '$wt'; rm -rf /tmp/vtry.'$$'; git -C 
 git -C $wt apply "$patch" || { echo "patch does not apply"; exit 2; }
 echo "== baseline with the change:"; BASELINE_REPO=$wt python3 tools/baseline.py | head -5
 for p in $props; do
-  out=$(VERIF_REPO=$wt VERIF_OUT=/tmp/vtry.$$/out ./check $p $tier 2>&1); rc=$?
+  out=$(VERIF_REPO=$wt VERIF_OUT=/tmp/vtry.$$/out timeout ${TRY_TIMEOUT:-900} ./check $p $tier 2>&1); rc=$?
   echo "$p rc=$rc $(echo "$out" | grep -c '^VIOLATION') violation lines | $(echo "$out" | grep -m1 'violation\[' | cut -c1-220)"
 done
